@@ -573,3 +573,93 @@ def model_product(ip, args, kwargs):
 
 
 C.EXTERNALS["itertools.product"] = model_product
+
+
+# --- expectation_value: sum_{k+a+b=n} N^(k) <Psi^(a)| d |Psi^(b)> ---------------------------
+class _WfnTableLoop(LoopContract):
+    """fills the table of bra / ket wave functions of the orders 0..n (each
+    requested once: bra and ket are different objects)"""
+
+    def iter_spec(self, vc, frame, seq):
+        return iter_is_int_range(vc, seq, 0, term(frame["order"]) + 1)
+
+    def havoc(self, vc, frame, k, seq):
+        frame["wfn"] = Struct("WfnTable", n=term(frame["order"]))
+        for nm in ("o", "bk"):
+            frame.locals.pop(nm, None)
+
+
+def _wfn_table_subscript(ip, obj, idx):
+    return Struct("WfnRow", n=obj.f["n"], order=term(idx))
+
+
+def _wfn_row_subscript(ip, obj, bk):
+    vc = ip.vc
+    o = obj.f["order"]
+    if not vc.decide(z3.And(o >= 0, o <= obj.f["n"])):
+        raise RaiseEx("KeyError", "order outside the wave function table")
+    bk = vc.concretize(bk) if not isinstance(bk, str) else bk
+    if vc.decide(o == 0):
+        return mk_expr(1, False, singleton="One")
+    code = BK.index(bk)
+    return atom_nc(PSI(o, code), frozenset([("sym:wfn-table", (code, o), True)]))
+
+
+C.STRUCT_SUBSCRIPT["WfnTable"] = _wfn_table_subscript
+C.STRUCT_STORE["WfnTable"] = lambda ip, obj, idx, v: None
+C.STRUCT_SUBSCRIPT["WfnRow"] = _wfn_row_subscript
+C.STRUCT_STORE["WfnRow"] = lambda ip, obj, idx, v: None
+
+
+class _EvOuter(_M.NormOuterLoop):
+    inner_len = 2
+    tag = "gs_expectation"
+    scratch = ("norm_term", "norm", "orders_d", "d", "term", "i1")
+
+
+class _EvInner(_M.InnerSumLoop):
+    acc_var = "d"
+    inner_len = 2
+    tag = "gs_expectation"
+    scratch = ("term", "i1")
+
+    def rest(self, frame):
+        return frame["norm_term"][1]
+
+    def term_spec(self, vc, frame, parts):
+        a, b = parts
+        n = term(frame["n_particles"])
+        return braket_vev(NO_RULES, a, OPD(n, n), b)
+
+
+@register
+class _OperatorsOperatorAssumed(Contract):
+    key = "adcgen.operators:Operators.operator"
+    props = []
+    assumed = True
+    note = "pref * d * creation/annihilation string over fresh general indices, no rules"
+
+    def apply(self, vc, a):
+        at = OPD(term(a["n_create"]), term(a["n_annihilate"]))
+        return (atom_nc(at, frozenset([("operator", (str(at),), True)])), None)
+
+
+@register
+class ExpectationValue(Contract):
+    key = GS + ".expectation_value"
+    props = ["C02"]
+    loops = {0: _WfnTableLoop(), 2: _EvOuter(), 3: _EvInner()}
+
+    def setup(self, vc):
+        return {"self": new_gs(vc), "order": Sym(vc.fresh_int("order")),
+                "n_particles": Sym(vc.fresh_int("n_particles"))}
+
+    def raises(self, vc, a):
+        o = a["order"]
+        return [("Inputerror", (o < 0) if isinstance(o, int) else o.t < 0)]
+
+    def post(self, vc, a, result):
+        n = term(a["order"])
+        O = _M.fn("OUTER[gs_expectation]", z3.IntSort(), z3.IntSort(), z3.RealSort())
+        return [("is-the-sum-over-norm-factor-and-order-splittings-of-<Psi|d|Psi>",
+                 as_expr(result).f["val"] == O(n, n + 1))]
